@@ -13,6 +13,8 @@ RULE = ("files with random 32-bit packed words (random top bits), random channel
         "value with the format's div/mod formula (oracle) and with the Lean model. A case = (format, line); non-trivial "
         "= the line has at least two different samples; distinct by (format, seed, line)")
 RULE += (" In the thorough tier, and in the quick tier whenever the source differs from the validated baseline, a LONG-PASS stream is added (passes of 1300 .. 12000 lines, just beyond multiples of 256 .. 8192, with the property-relevant event placed at and after such multiples; DESIGN 10.4 round 13).")
+RULE += (" DATASET AFTER CALIBRATION: 60-line passes with realistic telemetry and drop-outs the calibration repairs in place; the counts "
+         "dataset is rebuilt after get_calibrated_channels() and get_calibrated_dataset() on the same reader and compared with the means.")
 
 
 def spec_counts(words, width):
@@ -142,6 +144,41 @@ def check_pass(ctx, fmt, n, seed, drv, top="random", uniform=None):
                 "select": (sw[:6].tolist() if fam == "klm" else None)})
 
 
+def repeat_dataset_case(ctx, fmt, seed):
+    """Telemetry of a pass with drop-outs (a PRT reading of 12 counts on a line that is no reset line, internal-target and
+    space counts below 100 on channel-3b lines - the calibration REPAIRS such readings, in place, in the arrays it is handed):
+    the counts dataset built after a calibration on the same reader still carries the means of the line's own words."""
+    import warnings as _w
+    n = 60
+    pb = filegen.PassBuilder(ctx, fmt, n, random.Random(repr(("c02rep", seed, fmt))))
+    pb.prt[17] = 12
+    pb.prt[41] = 3
+    pb.ict[30:33, 0] = 37
+    pb.space[44:46, 0] = 20
+    pb.ict[50, 1] = 0
+    payload = {"fmt": fmt, "seed": seed, "stream": "dataset-after-calibration"}
+    r = filegen.make_reader(ctx, fmt, data=pb.tobytes(), name=pb.dsname)
+    want = {"prt_counts": pb.prt.mean(axis=1).astype(float), "ict_counts": pb.ict.astype(float), "space_counts": pb.space.astype(float)}
+    for rnd, how in enumerate(("fresh", "get_calibrated_channels", "get_calibrated_dataset")):
+        with _w.catch_warnings():
+            _w.simplefilter("ignore")
+            if rnd == 1:
+                r.get_calibrated_channels()
+            elif rnd == 2:
+                r.get_calibrated_dataset()
+            ds = r.create_counts_dataset()
+        for nm, w in want.items():
+            got = np.asarray(ds[nm].data, dtype=float)
+            if got.shape != w.shape or not np.allclose(got, w, rtol=0, atol=1e-9):
+                bad = np.argwhere(~np.isclose(got, w, rtol=0, atol=1e-9)) if got.shape == w.shape else []
+                at = tuple(int(x) for x in bad[0]) if len(bad) else ()
+                ctx.violation("%s: counts dataset built %s: %s%s is %s, the mean of the line's designated words is %s" % (
+                    fmt, "on the fresh reader" if rnd == 0 else "after %s() on the same reader" % how, nm, list(at),
+                    got[at] if len(bad) else got.shape, w[at] if len(bad) else w.shape), payload,
+                    cls="dataset-telemetry-after-calibration:%s:%s" % (filegen.FMT[fmt]["family"], nm))
+        ctx.case((fmt, seed, "dataset-after", rnd), nontrivial=True, branch="dataset-after/" + how)
+
+
 def flush(ctx, drv):
     if not drv:
         return
@@ -186,6 +223,8 @@ def run(ctx):
     for j, (fmt, n, u) in enumerate([(f_, n_, u_) for f_ in ("klmGac", "klmLac") for n_ in (1, 2, 5) for u_ in (0, 1, 2, 3)]):
         check_pass(ctx, fmt, n, ctx.seed * 1000 + 500 + j, drv, "random", uniform=u)
         flush(ctx, drv)
+    for j, fmt in enumerate(["klmGac", "podGac", "klmLac", "podLac"][: (4 if (ctx.thorough or getattr(ctx, "escalated", False)) else 2)]):
+        repeat_dataset_case(ctx, fmt, ctx.seed * 1000 + 700 + j)
     ctx.assumptions += ["float64 means of <= 50 integers below 65536 are exact to 1e-9"]
 
 
@@ -197,7 +236,10 @@ def replay(ctx, path):
         print("replay file carries no input: %s" % body.get("broken_theorems_or_obligations"))
         return 1
     ctx.driver_ok = False
-    check_pass(ctx, inp["fmt"], inp["n"], inp["seed"], [], inp.get("top", "random"), uniform=inp.get("uniform"))
+    if inp.get("stream") == "dataset-after-calibration":
+        repeat_dataset_case(ctx, inp["fmt"], inp["seed"])
+    else:
+        check_pass(ctx, inp["fmt"], inp["n"], inp["seed"], [], inp.get("top", "random"), uniform=inp.get("uniform"))
     if ctx.input_violations:
         print("REPRODUCED: " + ctx.input_violations[0]["what"])
         return 1
